@@ -1,9 +1,14 @@
 import SaVerif.Model.CyUtil
+import SaVerif.Model.ApplyProcs
 import SaVerif.Drv.Parse
 /-!
 `cyutil tuplegetter <i,j,..> <row items|->`  → `(a,b,..)` canonical tuple | `E:IndexError`
 `cyutil anon o3 k1 o3 ...`                   → per op `<index><T|F>` for objects, `<index>` for keys
 `cyutil panon <ident>.<name> ...`            → per key `<name>.<counter>`
+`cyutil applyprocs <procs|N> <data|-> <view> ...` → per view the processed row as delivered:
+     procs `n.g.d.z` (none / neg / dbl / nz = default 77 for NULL), data `1.N.3` (N = NULL),
+     views `t` (tuple) `s<k>` (column k) `m` (mapping); both branches of `_apply_processors` are
+     evaluated, `BRANCHES-DIFFER` if they disagree, `E:AssertionError` on a width mismatch
 -/
 namespace SaVerif.Drv.Cyutil
 open SaVerif.Drv SaVerif.CyUtil
@@ -20,7 +25,45 @@ def parsePairDot? (s : String) : Option (Nat × Nat) :=
   | [a, b] => do let x ← a.toNat?; let y ← b.toNat?; pure (x, y)
   | _ => none
 
+def parseNProcs? (s : String) : Option (List SaVerif.ApplyProcs.NProc) :=
+  if s == "N" then some [] else
+  (s.splitOn ".").mapM (fun t => match t with
+    | "n" => some .none | "g" => some .neg | "d" => some .dbl | "z" => some .nz | _ => none)
+
+def parseNullable? (s : String) : Option (List (Option Int)) :=
+  if s == "-" || s.isEmpty then some [] else
+  (s.splitOn ".").mapM (fun t => if t == "N" then some none else t.toInt?.map some)
+
+def showNullable : Option Int → String
+  | none => "None"
+  | some v => toString v
+
+def showView (row : List (Option Int)) (v : String) : String :=
+  if v == "t" then "(" ++ ",".intercalate (row.map showNullable) ++ ")"
+  else if v == "m" then
+    "{" ++ ",".intercalate ((List.range row.length).zip row |>.map
+      (fun e => "s'c" ++ toString e.1 ++ "':" ++ showNullable e.2)) ++ "}"
+  else if v.startsWith "s" then
+    match ((v.drop 1).toString).toNat? with
+    | some k => match row[k]? with | some x => showNullable x | none => "E:IndexError"
+    | none => "bad-op"
+  else "bad-op"
+
+def handleApplyProcs (procs data : String) (views : List String) : String :=
+  match parseNProcs? procs, parseNullable? data with
+  | some ps, some d =>
+    -- no processors at all: the simple getters hand the raw row over
+    if procs == "N" then " ".intercalate (views.map (showView d)) else
+    -- neg / dbl raise on NULL in Python: outside what this request language describes
+    if (ps.zip d).any (fun e => e.2.isNone && !e.1.acceptsNull) then "bad-op" else
+    match SaVerif.ApplyProcs.applyProcsBoth (ps.map (·.slot)) d with
+    | none => "E:AssertionError"
+    | some (c, p) =>
+      if c != p then "BRANCHES-DIFFER" else " ".intercalate (views.map (showView c))
+  | _, _ => "bad-op"
+
 def handle : List String → String
+  | "applyprocs" :: procs :: data :: views => handleApplyProcs procs data views
   | ["tuplegetter", idx, row] =>
     match parseNatList? idx, parseNatList? row with
     | some idx, some row =>
